@@ -452,6 +452,8 @@ def run(prog, rep, tier):
     pattern_entries(prog, rep, [(U + "imec", "A"), (U + "dag_to_icpdag", "G")])
     dag_gate(rep, prog, U + "imec", "A", rule="GATE")
     imec_rules(rep, prog)
+    from .common import inputs_intact
+    inputs_intact(rep, prog, [U + n_ for n_ in ['imec', 'dag_to_icpdag', 'pdag_to_icpdag']])
     # dag_to_icpdag starts from dag_to_cpdag(G): the CPDAG construction is part of this property
     from .C08 import cpdag_core
     cpdag_core(rep, prog)
